@@ -65,6 +65,18 @@ def load_known():
     return json.load(open(KNOWN))
 
 
+def _has_unlisted_violation(instances, prop_id):
+    """a violation that is not one of the listed known findings: only such a violation (which makes the run exit 1 anyway) may
+    excuse rules that could not be instantiated; a run that reports known findings only must still be complete"""
+    kf = [k for k in load_known().get("findings", []) if k["property"] == prop_id]
+    for v in instances:
+        if v["outcome"] != "violation":
+            continue
+        if not any(k["rule"] == v["rule"] and k["function"] == v["function"] and k["fingerprint"] == v.get("fingerprint") for k in kf):
+            return True
+    return False
+
+
 def _dedupe(instances):
     """The same rule instance seen in several configurations is one instance; keep the list of
     configurations."""
@@ -101,7 +113,7 @@ def run_property(prop_id, module, tier, explain=None):
             except AnalysisBroken as e:
                 # a violation already established stays a violation; the rules that could not be instantiated
                 # after it (often because of it) are recorded as not evaluated
-                if any(i["outcome"] == "violation" for i in rep.instances):
+                if _has_unlisted_violation(rep.instances, prop_id):
                     rep.note("configuration %s: analysis stopped after the reported violation(s): %s" % (list(cfg), str(e)[:300]))
                 else:
                     raise
@@ -112,7 +124,7 @@ def run_property(prop_id, module, tier, explain=None):
         counts = {}
         for i in inst:
             counts[i["rule"]] = counts.get(i["rule"], 0) + 1
-        has_violation = any(i["outcome"] == "violation" for i in inst)
+        has_violation = _has_unlisted_violation(inst, prop_id)
         for rid, floor in rep.floors.items():
             # floors guard against vacuous PASSES; a run that already reports a violation exits 1 anyway, and the
             # violated construct may legitimately prevent dependent rules from being instantiated
